@@ -139,7 +139,9 @@ def make_entry(rng, ombott):
     else:
         def f(n, v):
             r = new()
-            r.headers[n] = v
+            for k in range(pre):
+                r.headers.append(n, 'v%d' % k)
+            r.headers.append(n, v)
             return r.copy(cls if cls is not Response else None), n
     if entry in ('ctor_dict', 'ctor_pairs', 'more_headers') and cls in (BaseResponse, Response):
         cls = rng.choice([HTTPResponse, HTTPError])
@@ -228,7 +230,7 @@ def setter_unit(ctx, unit):
             continue    # formatted as a date
         em = emitted_for(hl, real_name)
         exp = [sv]
-        if entry in ('append', 'ctor_pairs'):
+        if entry in ('append', 'ctor_pairs', 'copy'):
             exp = ['v%d' % k for k in range(f.pre)] + [sv]
             ctx.count('multi_value_order_checked')
             if f.pre >= 2:
